@@ -6,6 +6,7 @@
 package vsync
 
 import (
+	"math/rand"
 	"fmt"
 	"reflect"
 	"runtime"
@@ -603,6 +604,15 @@ func Sleep(d time.Duration) {
 	}
 	S.cur.wake = S.Clock + d
 	point(Op{Kind: KSleep, Site: site(2)})
+}
+
+// RandInt31n replaces math/rand.Int31n in instrumented code: a fixed answer under the scheduler (so that a
+// schedule can be replayed), the real generator in passthrough mode.
+func RandInt31n(n int32) int32 {
+	if me() == nil {
+		return rand.Int31n(n)
+	}
+	return 0
 }
 
 // AtomicPoint is the scheduling point placed before every atomic operation.
